@@ -164,6 +164,8 @@ pub fn supervised<T: Send + 'static>(label: &str, watchdog: Duration, f: impl Fn
     let mut last_sig = progress_signature();
     let mut last_change = Instant::now();
     let mut prev_stats: Option<BTreeMap<u64, ThreadStat>> = None;
+    // first sample of the current stall: CPU consumed since then is CPU consumed without logical progress
+    let mut stall_stats: Option<BTreeMap<u64, ThreadStat>> = None;
     let mut spin_checks = 0;
     loop {
         match rx.recv_timeout(Duration::from_millis(250)) {
@@ -184,12 +186,16 @@ pub fn supervised<T: Send + 'static>(label: &str, watchdog: Duration, f: impl Fn
             last_sig = sig;
             last_change = Instant::now();
             prev_stats = None;
+            stall_stats = None;
         }
         let stalled = last_change.elapsed();
         let need = if POLLERS.lock().unwrap_or_else(|e| e.into_inner()).is_empty() { 3 } else { 15 };
         if stalled > Duration::from_secs(need) {
             // two samples at least one second apart: every thread asleep, nobody scheduled meanwhile
             let cur = thread_stats();
+            if stall_stats.is_none() {
+                stall_stats = Some(cur.clone());
+            }
             if let Some(prev) = prev_stats.as_ref() {
                 let quiet = cur.iter().all(|(tid, st)| {
                     is_background_noise(&st.comm) || is_poller(*tid) || (matches!(st.state, 'S' | 'D') && prev.get(tid).map_or(false, |p| p.switches == st.switches && p.cpu == st.cpu))
@@ -213,7 +219,7 @@ pub fn supervised<T: Send + 'static>(label: &str, watchdog: Duration, f: impl Fn
             // (`wake_by_ref(); Pending`), so a task waiting for a processor that will never answer
             // keeps its thread running for ever. After a long stall, look at the stacks: if every
             // thread that is not asleep is only spinning inside such a wait, nobody can make progress.
-            if stalled > Duration::from_secs(12 + 12 * spin_checks as u64) && spin_checks < 5 {
+            if stalled > Duration::from_secs(12 + 12 * spin_checks as u64) && spin_checks < 12 {
                 if let Some(prev) = prev_stats.as_ref() {
                     spin_checks += 1;
                     let busy: Vec<u64> = cur
@@ -232,6 +238,35 @@ pub fn supervised<T: Send + 'static>(label: &str, watchdog: Duration, f: impl Fn
                                     && (b.contains("wg::future::") || b.contains("YieldNow") || (idle_executor && !b.contains("stretto::") && !b.contains("vcheck::engines::")))
                             })
                         });
+                    // Livelock: a thread that has burnt 30 s of CPU time (not wall-clock: it only accrues
+                    // while the thread really runs) inside the cache since the last logical progress of
+                    // anybody (hook counters, completed client operations, callbacks), while every other
+                    // thread sleeps or merely polls. No operation of the workloads costs seconds of CPU.
+                    let clk_tck = 100u64;
+                    let livelocked: Vec<(u64, u64)> = busy
+                        .iter()
+                        .filter_map(|tid| {
+                            let burnt = cur.get(tid)?.cpu.saturating_sub(stall_stats.as_ref()?.get(tid)?.cpu);
+                            let in_cache = blocks.iter().any(|b| b.lines().next().map_or(false, |l| l.contains(&format!("LWP {tid})"))) && b.contains("stretto::") && !b.contains("wg::future::"));
+                            if burnt >= 30 * clk_tck && in_cache {
+                                Some((*tid, burnt / clk_tck))
+                            } else {
+                                None
+                            }
+                        })
+                        .collect();
+                    if !livelocked.is_empty() {
+                        let c = counters::snapshot();
+                        return Sup::Hang(json!({
+                            "kind": "livelock: a thread keeps running inside the cache without any logical progress",
+                            "phase": PHASES[PHASE.load(Ordering::SeqCst) as usize % PHASES.len()],
+                            "stalled_s": stalled.as_secs_f64(),
+                            "cpu_seconds_burnt_without_progress": livelocked.iter().map(|(t, s)| format!("thread {t}: {s} s")).collect::<Vec<_>>(),
+                            "counters": format!("{c:?}"),
+                            "threads": cur.iter().map(|(t, s)| format!("{t}:{}:{}", s.comm, s.state)).collect::<Vec<_>>(),
+                            "stacks": st,
+                        }));
+                    }
                     if spinning_only {
                         let c = counters::snapshot();
                         return Sup::Hang(json!({
